@@ -224,16 +224,20 @@ func (f *frame) rangeNext(i *ssa.Next, n *node, st *State) {
 // chan.len, chan.cap : Ref -> Int ; chan.closed : Ref -> Bool
 // chan.q.<T><comp> : Ref -> (Int -> comp) with chan.head : Ref -> Int
 
-func (x *Exec) chanInit(st *State, ref, size *Term) {
-	st.setRegion("chan.len", Store(st.region("chan.len", sArrII), ref, Num(0)))
-	st.setRegion("chan.cap", Store(st.region("chan.cap", sArrII), ref, size))
-	st.setRegion("chan.head", Store(st.region("chan.head", sArrII), ref, Num(0)))
-	st.setRegion("chan.closed", Store(st.region("chan.closed", SArr(SBool)), ref, TFalse))
+// channel regions are per element type, so channels of different types never alias
+func chReg(kind string, chT types.Type) string { return "chan." + kind + "." + typeName(chanElem(chT)) }
+
+func (x *Exec) chanInit(st *State, chT types.Type, ref, size *Term) {
+	st.setRegion(chReg("len", chT), Store(st.region(chReg("len", chT), sArrII), ref, Num(0)))
+	st.setRegion(chReg("cap", chT), Store(st.region(chReg("cap", chT), sArrII), ref, size))
+	st.setRegion(chReg("head", chT), Store(st.region(chReg("head", chT), sArrII), ref, Num(0)))
+	st.setRegion(chReg("closed", chT), Store(st.region(chReg("closed", chT), SArr(SBool)), ref, TFalse))
 }
 
-func (x *Exec) chanLen(st *State, ref *Term) *Term {
-	l := Select(st.region("chan.len", sArrII), ref)
-	x.assumeTrue(And(Le(Num(0), l), Le(l, Select(st.region("chan.cap", sArrII), ref))))
+func (x *Exec) chanLen(st *State, ch Value) *Term {
+	ref := ch.C[0]
+	l := Select(st.region(chReg("len", ch.T), sArrII), ref)
+	x.assumeTrue(And(Le(Num(0), l), Le(l, Select(st.region(chReg("cap", ch.T), sArrII), ref))))
 	return l
 }
 
@@ -243,20 +247,20 @@ func (f *frame) chanSendOp(ch, v Value, st *State, pos token.Pos, blocking bool)
 	x := f.x
 	ref := ch.One()
 	et := chanElem(ch.T)
-	closed := Select(st.region("chan.closed", SArr(SBool)), ref)
+	closed := Select(st.region(chReg("closed", ch.T), SArr(SBool)), ref)
 	x.oblige("send-closed", nil, st.pc, Not(closed), pos, "send on closed channel")
-	ln := x.chanLen(st, ref)
-	cp := Select(st.region("chan.cap", sArrII), ref)
+	ln := x.chanLen(st, ch)
+	cp := Select(st.region(chReg("cap", ch.T), sArrII), ref)
 	if blocking {
 		x.oblige("send-noblock", nil, st.pc, Lt(ln, cp), pos, "send must not block (buffer has room)")
 	}
-	head := Select(st.region("chan.head", sArrII), ref)
+	head := Select(st.region(chReg("head", ch.T), sArrII), ref)
 	for j, c := range Flatten(et) {
 		name := "chan.q." + typeName(et) + c.Suffix
 		r := st.region(name, SArr(SArr(c.Sort)))
 		st.setRegion(name, Store(r, ref, Store(Select(r, ref), Add(head, ln), v.C[j])))
 	}
-	st.setRegion("chan.len", Store(st.region("chan.len", sArrII), ref, Add(ln, Num(1))))
+	st.setRegion(chReg("len", ch.T), Store(st.region(chReg("len", ch.T), sArrII), ref, Add(ln, Num(1))))
 }
 
 func (f *frame) chanSend(i *ssa.Send, n *node, st *State) *State {
@@ -272,9 +276,9 @@ func (f *frame) chanRecvOp(ch Value, st *State) (Value, *Term) {
 	x := f.x
 	ref := ch.One()
 	et := chanElem(ch.T)
-	ln := x.chanLen(st, ref)
-	closed := Select(st.region("chan.closed", SArr(SBool)), ref)
-	head := Select(st.region("chan.head", sArrII), ref)
+	ln := x.chanLen(st, ch)
+	closed := Select(st.region(chReg("closed", ch.T), SArr(SBool)), ref)
+	head := Select(st.region(chReg("head", ch.T), sArrII), ref)
 	nonEmpty := Gt(ln, Num(0))
 	comps := Flatten(et)
 	other := FreshValue("recv", et)
@@ -288,8 +292,8 @@ func (f *frame) chanRecvOp(ch Value, st *State) (Value, *Term) {
 	}
 	okFresh := Fresh("recvok", SBool)
 	ok := Ite(nonEmpty, TTrue, Ite(closed, TFalse, okFresh))
-	st.setRegion("chan.len", Store(st.region("chan.len", sArrII), ref, Ite(nonEmpty, Sub(ln, Num(1)), ln)))
-	st.setRegion("chan.head", Store(st.region("chan.head", sArrII), ref, Ite(nonEmpty, Add(head, Num(1)), head)))
+	st.setRegion(chReg("len", ch.T), Store(st.region(chReg("len", ch.T), sArrII), ref, Ite(nonEmpty, Sub(ln, Num(1)), ln)))
+	st.setRegion(chReg("head", ch.T), Store(st.region(chReg("head", ch.T), sArrII), ref, Ite(nonEmpty, Add(head, Num(1)), head)))
 	return val, ok
 }
 
@@ -306,9 +310,9 @@ func (f *frame) chanRecv(i *ssa.UnOp, ch Value, n *node, st *State) *State {
 func (f *frame) chanClose(ch Value, n *node, st *State, pos token.Pos) *State {
 	x := f.x
 	ref := ch.One()
-	cr := st.region("chan.closed", SArr(SBool))
+	cr := st.region(chReg("closed", ch.T), SArr(SBool))
 	x.oblige("close-closed", nil, st.pc, And(Ne(ref, Num(0)), Not(Select(cr, ref))), pos, "close of nil or closed channel")
-	st.setRegion("chan.closed", Store(cr, ref, TTrue))
+	st.setRegion(chReg("closed", ch.T), Store(cr, ref, TTrue))
 	return st
 }
 
@@ -324,13 +328,13 @@ func (f *frame) selectStmt(i *ssa.Select, n *node, st *State) *State {
 	for _, s := range i.States {
 		ch := f.get(s.Chan, n, st)
 		ref := ch.One()
-		ln := x.chanLen(st, ref)
-		closed := Select(st.region("chan.closed", SArr(SBool)), ref)
+		ln := x.chanLen(st, ch)
+		closed := Select(st.region(chReg("closed", ch.T), SArr(SBool)), ref)
 		var ready *Term
 		if s.Dir == types.RecvOnly {
 			ready = And(Ne(ref, Num(0)), Or(Gt(ln, Num(0)), closed))
 		} else {
-			ready = And(Ne(ref, Num(0)), Or(Lt(ln, Select(st.region("chan.cap", sArrII), ref)), closed))
+			ready = And(Ne(ref, Num(0)), Or(Lt(ln, Select(st.region(chReg("cap", ch.T), sArrII), ref)), closed))
 		}
 		cases = append(cases, cs{ready, ch})
 	}
